@@ -281,3 +281,40 @@ def cleanup_removes_by_identity(ctx):
             ctx.check(ok, f'{rx.qualname}:cleanup by identity', c, 'removal guarded by `prev is entry`',
                       f'`{src(c)}` removes the entry found under the key of the timed-out request without checking that it is that request: a newer '
                       'request with the same action and specifier is dropped and its caller waits for the time-out although the peer answered', rx)
+
+
+@rule('C11.R7', min_instances=1)
+def dequeued_entry_is_never_dropped(ctx):
+    """transmit thread: an entry taken from txq either becomes pending / active or the loop is left only because the entry is
+    the shutdown marker (None): a dequeued request that is in no container can never be released by disconnect()"""
+    m = ctx.m
+    tx = next((f for n, f in _thread_entries(m).items() if 'tx' in n), None)
+    if tx is None:
+        raise AnchorMissing('transmit thread not found')
+    ctx.analysed(tx)
+    gets = [n for n in body_walk(tx.node) if isinstance(n, ast.Assign) and isinstance(n.value, ast.Call) and call_attr(n.value) == 'get'
+            and 'txq' in src(n.value.func) and isinstance(n.targets[0], ast.Name)]
+    if not gets:
+        raise AnchorMissing('txq.get() in the transmit thread not found')
+    for g in gets:
+        var = g.targets[0].id
+        loop = next((a for a in ancestors(g) if isinstance(a, ast.While)), None)
+        if loop is None:
+            ctx.undecided(f'{tx.qualname}:dequeued entry accounted for', g, 'not inside a loop', tx)
+            continue
+        cfg = CFG(tx.node, m, tx.module)
+        keep = {i for n in walk_local(loop) for i in cfg.node_of(n)
+                if (isinstance(n, ast.Subscript) and isinstance(n.ctx, ast.Store) and 'active_requests' in src(n.value)) or
+                (isinstance(n, ast.Call) and call_attr(n) == 'put' and n.args and src(n.args[0]) == var) or
+                (isinstance(n, ast.Call) and call_attr(n) == 'set' and var in src(n.func))}
+        leaves = [n for n in walk_local(loop) if isinstance(n, (ast.Break, ast.Return))]
+        for lv in leaves:
+            ids = set(cfg.ids(lv))
+            after_get = cfg.reach(cfg.node_of(g), avoid=keep)
+            if not (ids & after_get):
+                continue
+            guards = [a.test for a in ancestors(lv) if isinstance(a, ast.If) and any(a is x for x in ast.walk(loop))]
+            pure = any(src(t) == f'{var} is None' for t in guards)
+            ctx.check(pure, f'{tx.qualname}:loop left with a dequeued entry only for the shutdown marker', lv, f'guarded by `{var} is None`',
+                      f'the loop can be left under {[src(t) for t in guards]} with a request entry that was taken from txq but is neither active nor pending: '
+                      'disconnect() can not find it, its caller is never released', tx)
